@@ -31,6 +31,7 @@ import (
 	"github.com/sourcenetwork/defradb/internal/core"
 	coreblock "github.com/sourcenetwork/defradb/internal/core/block"
 	"github.com/sourcenetwork/defradb/internal/datastore"
+	"github.com/sourcenetwork/defradb/internal/db/id"
 	"github.com/sourcenetwork/defradb/internal/keys"
 )
 
@@ -785,6 +786,12 @@ func (p *Peer) retryDoc(ctx context.Context, peerIDString string, docID string) 
 	txn := datastore.MustGetFromClientTxn(clientTxn)
 	ctx = datastore.CtxSetTxn(ctx, txn)
 
+	if docID == "" {
+		// The failed push of a collection-level commit (branchable collections) is recorded
+		// without a docID.
+		return p.retryCollectionHeads(ctx, clientTxn, peerIDString)
+	}
+
 	heads, err := p.getHeads(ctx, docID)
 	if err != nil {
 		return err
@@ -824,6 +831,80 @@ func (p *Peer) retryDoc(ctx context.Context, peerIDString string, docID string) 
 		peerID, err := peer.Decode(peerIDString)
 		if err != nil {
 			return err
+		}
+		if err := p.server.pushLog(updateEvent, peerID); err != nil {
+			return err
+		}
+	}
+	return nil
+}
+
+// retryCollectionHeads pushes the collection-level heads of the branchable collections that are
+// replicated to the given peer.
+//
+// The record of a failed collection-level push doesn't say which collection it was for, so
+// all of them are pushed again.
+func (p *Peer) retryCollectionHeads(ctx context.Context, clientTxn client.Txn, peerIDString string) error {
+	txn := datastore.CtxMustGetTxn(ctx)
+
+	peerID, err := peer.Decode(peerIDString)
+	if err != nil {
+		return err
+	}
+	repBytes, err := txn.Peerstore().Get(ctx, keys.NewReplicatorKey(peerIDString).Bytes())
+	if err != nil {
+		return err
+	}
+	rep := client.Replicator{}
+	err = json.Unmarshal(repBytes, &rep)
+	if err != nil {
+		return err
+	}
+
+	for _, collectionID := range rep.CollectionIDs {
+		cols, err := clientTxn.GetCollections(
+			ctx,
+			client.CollectionFetchOptions{CollectionID: immutable.Some(collectionID)},
+		)
+		if err != nil {
+			return err
+		}
+		for _, col := range cols {
+			err = p.pushCollectionHeads(ctx, col, peerID, true)
+			if err != nil {
+				return err
+			}
+		}
+	}
+	return nil
+}
+
+// pushCollectionHeads pushes the collection-level heads of a branchable collection to the given peer.
+func (p *Peer) pushCollectionHeads(ctx context.Context, col client.Collection, peerID peer.ID, isRetry bool) error {
+	if !col.Version().IsBranchable {
+		return nil
+	}
+	txn := datastore.CtxMustGetTxn(ctx)
+
+	shortID, err := id.GetShortCollectionID(id.InitCollectionShortIDCache(ctx), col.Version().CollectionID)
+	if err != nil {
+		return err
+	}
+	headset := coreblock.NewHeadSet(txn.Headstore(), keys.NewHeadstoreColKey(shortID))
+	cids, _, err := headset.List(ctx)
+	if err != nil {
+		return err
+	}
+	for _, c := range cids {
+		rawblock, err := txn.Blockstore().Get(ctx, c)
+		if err != nil {
+			return err
+		}
+		updateEvent := event.Update{
+			Cid:          c,
+			CollectionID: col.Version().CollectionID,
+			Block:        rawblock.RawData(),
+			IsRetry:      isRetry,
 		}
 		if err := p.server.pushLog(updateEvent, peerID); err != nil {
 			return err
